@@ -13,6 +13,7 @@ BUILD = os.path.join(ROOT, 'build')
 VERIF_FAIL = [
     'postcondition not satisfied',
     'precondition not satisfied',
+    'precondition not met',
     'invariant not satisfied at end of loop body',
     'invariant not satisfied before loop',
     'assertion failed',
@@ -30,7 +31,7 @@ VERIF_FAIL = [
     'unreachable',
     'fails to satisfy',
 ]
-SAFETY = ['precondition not satisfied', 'possible arithmetic underflow/overflow', 'possible division by zero',
+SAFETY = ['precondition not satisfied', 'precondition not met', 'possible arithmetic underflow/overflow', 'possible division by zero',
           'possible bit shift underflow/overflow', 'decreases not satisfied', 'could not prove termination']
 RESOURCE = ['Resource limit', 'rlimit', 'timed out', 'canceled']
 
